@@ -117,6 +117,9 @@ AReverse ==   /\ "reverse" \in Acts /\ PDim(obj) = 1 /\ Step([a |-> "reverse"], 
 ATranspose == /\ "transpose" \in Acts /\ PDim(obj) = 2 /\ Step([a |-> "transpose"], Transpose(obj))
 AFlip ==      /\ "flip" \in Acts /\ PDim(obj) = 2 /\ Step([a |-> "flip"], Flip(obj))
 ATranslate(vec) == /\ "translate" \in Acts /\ Step([a |-> "translate", vec |-> vec], Translate(obj, vec))
+AScale(f) == /\ "scale" \in Acts /\ Step([a |-> "scale", f |-> f], ScaleBy(obj, f))
+\* sampling density of ONE direction (surfaces, volumes)
+ASampleSizeDir(d, n) == /\ "sample_size_dir" \in Acts /\ PDim(obj) > 1 /\ d <= PDim(obj) /\ Step([a |-> "sample_size_dir", d |-> d, n |-> n], obj)
 \* sampling density is part of the object state but not of `def`; the step is recorded so that the replay applies it
 ASampleSize(n) == /\ "sample_size" \in Acts /\ Step([a |-> "sample_size", n |-> n], obj)
 
